@@ -377,6 +377,12 @@ class Sym:
     __slots__ = ("e",)
     __hash__ = None
 
+    def __deepcopy__(self, memo):
+        return self         # immutable
+
+    def __copy__(self):
+        return self
+
 
 def _nonfinite(x):
     return isinstance(x, float) and (x != x or x in (math.inf, -math.inf))
@@ -637,6 +643,10 @@ class SInt(SNum):
         return c.concretize(self.e)
 
     __int__ = __index__
+
+    def __hash__(self):
+        # hashing needs a concrete value: fork over the feasible ones (sets / dict keys of symbolic ints)
+        return hash(self.__index__())
 
     def __floordiv__(self, o):
         if isinstance(o, builtins.int) and o > 0:
